@@ -83,6 +83,7 @@ def reset():
     _NONNEG.clear()
     _SIGN_MEMO.clear()
     _RANGES.clear()
+    _BOUNDS.clear()
 
 
 def declare_positive(v):
@@ -519,10 +520,55 @@ def minimum(a, b):
 
 
 # ---------------------------------------------------------------- predicates
+_BOUNDS: dict = {}  # var term id -> (lo or None, hi or None): declared closed lower / open upper bounds
+
+
+def declare_bounds(v, lo=None, hi=None):
+    _BOUNDS[v.id] = (lo, hi)
+
+
+def _bound_fold(op, a, b):
+    """decide  a op b  from declared variable bounds / syntactic sign knowledge, when one side is a constant"""
+    if is_const(a) and is_term(b):
+        # c op b
+        lo, hi = _BOUNDS.get(b.id, (None, None))
+        if lo is None and is_positive(b):
+            if (op == "lt" and a <= 0) or (op == "le" and a <= 0):
+                return True
+        if lo is None and is_nonneg(b) and op == "le" and a <= 0:
+            return True
+        if lo is not None:
+            if op == "le" and a <= lo:
+                return True
+            if op == "lt" and a < lo:
+                return True
+        if hi is not None:
+            if op in ("lt", "le") and a >= hi:
+                return False
+    elif is_term(a) and is_const(b):
+        lo, hi = _BOUNDS.get(a.id, (None, None))
+        if lo is None and is_positive(a) and b <= 0:
+            return False
+        if lo is None and is_nonneg(a) and op == "lt" and b <= 0:
+            return False
+        if lo is not None:
+            if op == "lt" and b <= lo:
+                return False
+            if op == "le" and b < lo:
+                return False
+        if hi is not None:
+            if op in ("lt", "le") and b >= hi:
+                return True
+    return None
+
+
 def _cmp(op, pyop, a, b):
     a, b, _ = _num2(a, b)
     if is_const(a) and is_const(b):
         return pyop(a, b)
+    r = _bound_fold(op, a, b)
+    if r is not None:
+        return r
     return mk(op, (a, b), B)
 
 
